@@ -100,7 +100,11 @@ func init() {
 	registerDomain("dotsum", []string{"T", "T", idxSort}, "Real", "")
 	registerDomain("mmsum", []string{"T", "T", idxSort}, "Real", "")
 	// sums of products over same-shape operands (after broadcasting)
-	registerDomain("dsum", []string{"T", "T", idxSort}, "Real", "")
+	// dsum(p, q, J) is *defined* as the left-to-right sum of products along the last dimension of p (dsumK: partial sums)
+	registerDomain("dsumK", []string{"T", "T", idxSort, "Int"}, "Real",
+		`(assert (forall ((p T) (q T) (J (Array Int Int)) (k Int)) (! (= (dsumK p q J k) (ite (<= k 0) 0.0 (+ (dsumK p q J (- k 1)) (* (el p (store J (- (rank p) 1) (- k 1))) (el q (store J (- (rank p) 1) (- k 1))))))) :pattern ((dsumK p q J k)))))`, "rank", "el")
+	registerDomain("dsum", []string{"T", "T", idxSort}, "Real",
+		`(assert (forall ((p T) (q T) (J (Array Int Int))) (! (= (dsum p q J) (dsumK p q J (dim p (- (rank p) 1)))) :pattern ((dsum p q J)))))`, "dsumK", "dim", "rank")
 	registerDomain("msum", []string{"T", "T", idxSort}, "Real", "")
 
 	// upd(J, k, v): J with position k replaced by v
